@@ -104,7 +104,7 @@ pub fn build(_ctl: &'static Ctrl, params: &Value) -> Instance {
                 }
                 End::Stuck(who) => v.push(Violation { kind: "stranded_waiter".into(), detail: format!("logical deadlock, unfinished: {who:?}") }),
                 End::Budget => v.push(Violation { kind: "livelock".into(), detail: "step budget exhausted".into() }),
-                End::Tool(_) => {}
+                End::Tool(_) | End::Aborted => {}
             }
             v
         }),
